@@ -40,7 +40,7 @@ type concOp struct {
 	n    int
 }
 
-var concPrivateKinds = []string{"parse", "parse", "parsesame", "parsequery", "parseexpr", "print", "quotestr", "quoteident", "fmtdur", "parsedur", "sanitize", "scan", "needsquotes"}
+var concPrivateKinds = []string{"parse", "parse", "parsetz", "parsesame", "parsequery", "parseexpr", "print", "quotestr", "quoteident", "fmtdur", "parsedur", "sanitize", "scan", "needsquotes"}
 var concSharedKinds = []string{"s.string", "s.string", "s.clone", "s.clonerewrite", "s.walk", "s.eval", "s.reduce", "s.reducenow", "s.rewritefields", "s.columns", "s.privs", "s.names", "s.condexpr", "s.evaltype", "s.measurements"}
 
 func drawConcOps(r *rand.Rand, n int, sharedText string) []concOp {
@@ -65,6 +65,10 @@ func drawConcOps(r *rand.Rand, n int, sharedText string) []concOp {
 			op.arg = randSelectText(r, 0)
 		case "parsesame":
 			op.arg = sharedText
+		case "parsetz":
+			// zone names in several spellings: each parse answers for its own spelling, whatever was parsed
+			// before or at the same time (seeded changes C17-3 / C17-6 kept looked-up zones in a package-level table)
+			op.arg = "SELECT v FROM m TZ('" + pick(r, []string{"UTC", "utc", "Utc", "America/New_York", "america/new_york", "AMERICA/NEW_YORK", "Europe/Berlin", "europe/berlin", "Asia/Tokyo", "asia/tokyo", "Nowhere/Land", ""}) + "')"
 		case "parsequery":
 			op.arg = randSelectText(r, 1) + pick(r, []string{"; ", ";", " ;\n"}) + pick(r, []string{"SHOW DATABASES", "DROP MEASUREMENT m", "SHOW TAG KEYS FROM m", "CREATE DATABASE d WITH DURATION 1h", "bogus"})
 		case "parseexpr":
@@ -89,7 +93,7 @@ func runConcOp(op concOp, shared *influxql.SelectStatement) (out string) {
 	}()
 	switch op.kind {
 	// ---- private data ----
-	case "parse", "parsesame":
+	case "parse", "parsesame", "parsetz":
 		st, err := influxql.ParseStatement(op.arg)
 		if err != nil {
 			return "err: " + err.Error()
